@@ -23,6 +23,9 @@ type channelBroker struct {
 	mu sync.RWMutex
 	// s is a slice of all SecureChannels watched by the channelBroker
 	s map[uint32]*uasc.SecureChannel
+	// closed is set by Close. A connection that finishes registering
+	// afterwards is closed instead of being added to s and wg.
+	closed bool
 
 	// Next Secure Channel ID to issue to a client
 	secureChannelID uint32
@@ -88,12 +91,18 @@ func (c *channelBroker) RegisterConn(ctx context.Context, conn *uacp.Conn, local
 	}
 
 	c.mu.Lock()
+	if c.closed {
+		c.mu.Unlock()
+		conn.Close()
+		return io.EOF
+	}
 	c.s[secureChannelID] = sc
 	if c.logger != nil {
 		c.logger.Info("Registered new channel (id %d) now at %d channels", secureChannelID, len(c.s))
 	}
-	c.mu.Unlock()
+	// Add must be ordered before the Wait in Close, hence under the lock.
 	c.wg.Add(1)
+	c.mu.Unlock()
 outer:
 	for {
 		select {
@@ -136,6 +145,7 @@ outer:
 func (c *channelBroker) Close() error {
 	var err error
 	c.mu.Lock()
+	c.closed = true
 	for _, s := range c.s {
 		s.Close()
 	}
